@@ -787,7 +787,7 @@ pub fn worker_trace(spec_file: &str) -> i32 {
 		}
 		if probe_each && w.tree.is_some() {
 			let view = match w.dump() {
-				Ok(d) => json!(d.iter().map(|(k, _)| String::from_utf8_lossy(k).to_string()).collect::<Vec<_>>()),
+				Ok(d) => json!(d.iter().map(|(k, v)| json!([String::from_utf8_lossy(k).to_string(), format!("{:016x}", crate::util::fnv64(v))])).collect::<Vec<_>>()),
 				Err(e) => json!({"probe_error": e}),
 			};
 			if let Some(last) = results.last_mut() {
